@@ -430,3 +430,97 @@ def copy_jobs(tier, seed):
                 jobs.append((a, b, seed * 131 + k, version, in_sub))
                 k += 1
     return jobs
+
+
+# ---- C06: length prefixes at their boundaries ---------------------------------------------------------------------------
+# Every route by which a dynamic value gets its uint16 length prefix, at lengths around the byte boundaries of the prefix
+# (compile-time prefixes are computed in Python, run-time prefixes in TEAL: both must agree with the reference codec).
+LEN_BOUNDARIES = (0, 1, 127, 128, 254, 255, 256, 257, 300, 511, 512, 513, 767, 1023, 1024, 1025, 2047, 2048, 4000)
+LEN_ROUTES = ("string-literal", "bytes-literal", "string-expr", "dynbytes-literal", "dynbytes-expr", "byte-array-of-values", "bool-array-of-values", "uint16-array-of-values",
+              "string-in-tuple", "static-bytes-literal")
+
+
+def length_jobs(tier):
+    return [(route, n, v) for route in LEN_ROUTES for n in LEN_BOUNDARIES for v in ((6, 8) if tier == "quick" else (5, 6, 8, 10))]
+
+
+def length_case(job):
+    from .e2e import with_big_stack
+    return with_big_stack(_length_case, job)
+
+
+def _length_case(job):
+    route, n, version = job
+    from vf.core import use_repo
+    use_repo()
+    import hashlib
+    import pyteal as pt
+    from pyteal import abi
+    from algosdk import abi as sabi
+    out = {"job": list(job), "problems": [], "ran": 0, "skipped": None}
+    payload = bytes((i * 7 + 3) % 251 for i in range(n))
+    text = "".join(chr(97 + (i * 5) % 26) for i in range(n))
+    stmts = []
+    try:
+        if route == "string-literal":
+            x = abi.String(); stmts.append(x.set(text)); want = sabi.StringType().encode(text)
+        elif route == "bytes-literal":
+            x = abi.String(); stmts.append(x.set(payload)); want = len(payload).to_bytes(2, "big") + payload
+        elif route == "string-expr":
+            if n > 4000:
+                return out
+            x = abi.String(); stmts.append(x.set(pt.Bytes(payload))); want = len(payload).to_bytes(2, "big") + payload
+        elif route == "dynbytes-literal":
+            x = abi.DynamicBytes(); stmts.append(x.set(payload)); want = len(payload).to_bytes(2, "big") + payload
+        elif route == "dynbytes-expr":
+            x = abi.DynamicBytes(); stmts.append(x.set(pt.Bytes(payload))); want = len(payload).to_bytes(2, "big") + payload
+        elif route in ("byte-array-of-values", "bool-array-of-values", "uint16-array-of-values"):
+            if n > 300:
+                out["skipped"] = "one scratch slot / frame cell per element"
+                return out
+            if route.startswith("byte"):
+                el, vals, st = abi.Byte, [b for b in payload], "byte[]"
+            elif route.startswith("bool"):
+                el, vals, st = abi.Bool, [(i % 3 == 0) for i in range(n)], "bool[]"
+            else:
+                el, vals, st = abi.Uint16, [(i * 257) % 65536 for i in range(n)], "uint16[]"
+            one = [el() for _ in range(min(n, 3))]          # three cells reused: the element values cycle with period 3
+            vals = [vals[i % 3] if n else None for i in range(n)]
+            for c, v in zip(one, vals[:3]):
+                stmts.append(c.set(v))
+            x = abi.make(abi.DynamicArray[el]); stmts.append(x.set([one[i % 3] for i in range(n)]))
+            want = sabi.ABIType.from_string(st).encode(vals)
+        elif route == "string-in-tuple":
+            a, s = abi.Uint8(), abi.String()
+            x = abi.make(abi.Tuple2[abi.Uint8, abi.String])
+            stmts += [a.set(7), s.set(text), x.set(a, s)]
+            want = sabi.ABIType.from_string("(uint8,string)").encode([7, text])
+        elif route == "static-bytes-literal":
+            if n == 0 or n > 1024:
+                return out
+            from typing import Literal
+            x = abi.make(abi.StaticBytes[Literal[n]]); stmts.append(x.set(payload)); want = payload  # type: ignore
+        else:
+            raise ValueError(route)
+        if len(want) > 4096:
+            return out
+        enc = x.encode()
+        prog = pt.Seq(*stmts, pt.Log(pt.Itob(pt.Len(enc))), pt.Log(pt.Sha256(enc)), pt.Log(pt.Extract(enc, pt.Int(0), pt.Int(min(2, len(want))))), pt.Approve())
+        teal = pt.compileTeal(prog, pt.Mode.Application, version=version)
+    except (pt.TealInputError, pt.TealTypeError, pt.TealCompileError, pt.TealInternalError) as e:
+        if too_many_slots(e):
+            out["skipped"] = "resource limit"
+            return out
+        out["problems"].append(f"rejected: {type(e).__name__}: {str(e)[:160]}")
+        return out
+    res = run_teal(teal)
+    out["ran"] = 1
+    if resource_limited(res):
+        out["skipped"] = "resource limit"
+        return out
+    exp = [len(want).to_bytes(8, "big"), hashlib.sha256(want).digest(), want[:2]]
+    if res.verdict != "approve" or res.logs != exp:
+        got = [l.hex() for l in res.logs]
+        out["problems"].append(f"{route} of length {n} at v{version}: encoded length / sha256 / first two bytes are {got} ({res.verdict} {res.detail}), the reference codec gives {[e.hex() for e in exp]}")
+        out["teal"] = teal[:3000]
+    return out
